@@ -1341,8 +1341,9 @@ DFGRIaddimlut(const char *filename, const void *imlut, int32 xdim, int32 ydim, i
     wref = 0; /* don't know ref to write next */
 
 done:
-    if (file_id != (-1))
-        Hclose(file_id);
+    /* the close flushes the descriptors of what was just written: its failure is a failure of this call */
+    if (file_id != (-1) && Hclose(file_id) == FAIL)
+        ret_value = FAIL;
 
     return ret_value;
 }
